@@ -153,6 +153,11 @@ def creates_cycle(m, pre, op):
     return False
 
 
+def untok(t):
+    tag, p = t
+    return {0: None, 1: ['o', p], 2: ['i', p], 3: ['s', p], 4: ['b', p], 6: ['f', p]}.get(tag, ['e', p // 100, p % 100] if tag == 5 else None)
+
+
 class Run:
     """Executes a case on the implementation; after every call evaluates the
     requested oracles; stops at the first failing call (the culprit)."""
@@ -174,6 +179,11 @@ class Run:
         mirror = koracle.Mirror(m, pre) if 'C05' in self.props else None
         self.skipped = []
         for i, op in enumerate(self.case['history']):
+            if op[0] == 'extendself':
+                cur = pre['objs'][op[1]]['feats'].get(op[2], [])
+                vals = [untok(t) for t in cur]
+                kind = op[3] if (op[3] != 'update' or m.fd(op[2])['unique']) else 'extend'
+                op[:] = [kind, op[1], op[2], vals, 'alias']
             if creates_cycle(m, pre, op):
                 self.skipped.append(i)
                 continue
